@@ -192,6 +192,9 @@ func genEPUB(r *hx.Rng) *pkg {
 	// in letter case / normalisation form / percent-decoding (twins.go); own stream, so
 	// the packages without them are the same as before
 	p.addEPUBTwins(r.Fork(0x7717), used, &manifest, &spine)
+	// repeated spine resources (repeats.go; own stream): a resource listed several times in
+	// the spine is one part, at its first position
+	p.addEPUBRepeats(r.Fork(0x5e9ea7), &manifest, &spine)
 	// navigation: EPUB 3 nav document, EPUB 2 NCX (either may be missing; EPUB 3 may carry both)
 	navTok, ncxTok := token(r, 90), token(r, 91)
 	hasNav := v3 && r.Chance(5, 6)
@@ -312,11 +315,10 @@ func genEPUB(r *hx.Rng) *pkg {
 		return o.String(), pairSpec("F", mp) + "/" + listSpec("I", sp)
 	}
 	switch c := r.Intn(120); {
-	case c < 2: // same item twice in the spine: declared twice (no oracle: its text is on two pages by declaration)
+	case c < 2: // the first spine item once more at the end: the resource is listed twice, it is one part (at its first position)
 		if len(spine) > 0 {
 			spine = append(spine, spine[0])
-			p.Oracle = false
-			p.Notes = append(p.Notes, "spine-repeats-item")
+			p.Notes = append(p.Notes, "spine-repeats-first-item-at-end")
 		}
 	case c < 4:
 		spine = nil
